@@ -216,7 +216,7 @@ class Explorer:
                 if extra and name in extra:
                     va = extra[name](va, None)
                 sc = float(np.max(np.abs(va))) + 1e-300
-                self.o.cmp("%s: %s" % (label, name), vb, va, max(self.tol, 1e-9), sc, key=name)
+                self.o.cmp("%s: %s" % (label, name), vb, va, getattr(self, "dq_tol", None) or max(self.tol, 1e-9), sc, key=name)
 
     def bfs(self, seed, rewrites, depth):
         """rewrites: callable(state) -> iterable of (label, new_state, L[, extra])"""
